@@ -87,6 +87,21 @@ pub fn adss(tier: &str, seed: u64) {
       shares.push(sh);
     }
     stat(if custom { "adss.share.custom_transcript" } else { "adss.share.default_transcript" });
+    // the SAME (t, M, R) shared under another transcript right before / after: sharing must not
+    // depend on what was shared earlier (no hidden state between calls)
+    if case % 3 == 1 {
+      let (tr2, trs2) = custom_transcript(&mut g);
+      let order: &[bool] = if custom { &[false, true, false] } else { &[true, false, true, false] };
+      for &use_custom in order {
+        let cc = Commune::new(t, m.clone(), r.clone(), if use_custom { Some(tr2.clone()) } else { None });
+        let b = cc.share().expect("share").to_bytes();
+        emit(
+          &format!("adss.share {} {} {} {} {}", t, hex(&m), hex(&r), if use_custom { trs2.as_str() } else { "-" }, hex(&share_x(&b))),
+          &format!("ok {}", hex(&b)),
+        );
+        stat("adss.share.interleaved_transcripts");
+      }
+    }
     // honest recovery from selections
     for _ in 0..2 {
       let mut sel = shares.clone();
@@ -267,6 +282,37 @@ pub fn star(tier: &str, seed: u64) {
     stat(if ans.starts_with("ok") { "star.recover.ok" } else { "star.recover.err" });
     emit(&format!("star.recover {} {}", hex(&e), hexlist(&sel)), &ans);
 
+    // one generator object reused across calls: different randomness (local, then two server
+    // values), different aux, and the WASM material in between - a generator must be stateless
+    {
+      let mg2 = MessageGenerator::new(SingleMeasurement::new(&m), t, &e);
+      let mut rnds: Vec<[u8; 32]> = vec![rnd];
+      for _ in 0..2 {
+        let mut r = [0u8; 32];
+        r.copy_from_slice(&g.bytes(32));
+        rnds.push(r);
+      }
+      rnds.push(rnd);
+      for (k, r) in rnds.iter().enumerate() {
+        let aux = gen_aux(&mut g);
+        let msg = Message::generate(&mg2, r, aux.as_ref().map(|a| AssociatedData::new(a))).expect("generate");
+        let b = msg.to_bytes();
+        let x = share_x(&msg.share.to_bytes());
+        emit(
+          &format!("star.generate {} {} {} {} {} {}", hex(&m), hex(&e), t, hex(r), aux_tok(&aux), hex(&x)),
+          &format!("ok {}", hex(&b)),
+        );
+        if k == 1 {
+          let w2 = mg2.share_with_local_randomness().expect("swlr");
+          let sb2 = w2.share.to_bytes();
+          emit(
+            &format!("star.swlr {} {} {} {}", hex(&m), hex(&e), t, hex(&share_x(&sb2))),
+            &format!("ok {},{},{}", hex(&w2.key), hex(&sb2), hex(&w2.tag)),
+          );
+        }
+        stat("star.generator_reused");
+      }
+    }
     // WASM-style material
     let w = mg.share_with_local_randomness().expect("swlr");
     let sb = w.share.to_bytes();
@@ -425,6 +471,33 @@ pub fn wire_inputs(tier: &str, seed: u64, wire_case: &mut dyn FnMut(&str, &[u8])
       b2[24 * elem..24 * elem + 24].copy_from_slice(&[0xff; 24]);
       wire_case("sharks", &b2);
       stat("wire.gen.bad_element");
+    }
+    // VALID extreme field elements (0, 1, 2^64, 2^128-1, 2^128 .. p-1) in every element position of a
+    // share and of a report: must be accepted and re-encoded identically
+    for elem in 0..(s_len / 24) {
+      for v in [
+        crate::s_fp::le24(0, 0),
+        crate::s_fp::le24(1, 0),
+        crate::s_fp::le24(1u128 << 64, 0),
+        crate::s_fp::le24(u128::MAX, 0),
+        crate::s_fp::le24(0, 1),
+        crate::s_fp::le24(g.below(12451) as u128, 1),
+        crate::s_fp::le24(12450, 1),
+      ] {
+        let mut b = sb.clone();
+        let o = 8 + 24 * elem;
+        b[o..o + 24].copy_from_slice(&v);
+        wire_case("adss", &b);
+        let mut b2 = kb3.clone();
+        b2[24 * elem..24 * elem + 24].copy_from_slice(&v);
+        wire_case("sharks", &b2);
+        let mut mm = mb.clone();
+        // the share sits after the ciphertext chunk: 4 + |ct| + 4
+        let so = 4 + c.msg.ciphertext.to_bytes().len() + 4;
+        mm[so + o..so + o + 24].copy_from_slice(&v);
+        wire_case("msg", &mm);
+        stat("wire.gen.valid_extreme_element");
+      }
     }
     // partial trailing field element inside S (canonicalised on re-encoding)
     for extra in [1usize, 12, 23] {
